@@ -433,7 +433,9 @@ class Job:
                     'trivial_queries': st.trivial, 'max_query_s': round(st.max_query_s, 3),
                     'aig_nodes': len(d.nodes), 'input_bits': d.nvars, 'wall_s': round(time.time() - self.t0, 3),
                     'loop_feasibility_queries': E.solver_calls, 'prune_queries': E.prune_queries, 'loop_feasibility_by_random_model': E.precheck_hits, 'guarded_failures': len(E.errors),
-                    'unwinding_obligations': len(E.unwind)})
+                    'unwinding_obligations': len(E.unwind),
+                    'second_solver': {'queries_rechecked': getattr(st, 'cross_done', 0), 'agree': getattr(st, 'cross_agree', 0),
+                                      'no_answer_in_time': getattr(st, 'cross_unknown', 0), 'disagree': getattr(st, 'cross_disagree', 0)}})
         return res
 
 
